@@ -9,23 +9,28 @@ import time
 def main(chk, tier):
     t0 = time.time()
     rc = 0
-    binp, _ = chk.cargo_build("sim", "release", features=["dudect"])
-    if binp is None:
-        chk.die("C16: harness build failed")
-    part = chk.part_path("C16", "release")
-    if os.path.exists(part):
-        os.remove(part)
-    r = chk.run_bin(binp, ["c16", "--tier", tier, "--seed", chk.SEED, "--flavour", "release", "--evidence", part,
-                           "--replay-dir", os.path.join(chk.VERIF, "replays"), "--known", chk.KNOWN, "--scale", chk.SCALE])
-    if r not in (0, 1):
-        chk.die(f"C16: fipsim c16 exited {r}")
-    rc = max(rc, r)
+    parts = []
+    # two builds of the library: with the constant-time test feature (as the other checks use it) and
+    # the plain default configuration, so that a feature-conditional erasure cannot hide in either
+    for flavour, feats, sub in (("release", ["dudect"], None), ("release-default-features", None, "sim-default")):
+        binp, _ = chk.cargo_build("sim", "release", features=feats, target_sub=sub)
+        if binp is None:
+            chk.die("C16: harness build failed")
+        part = chk.part_path("C16", flavour)
+        if os.path.exists(part):
+            os.remove(part)
+        parts.append(part)
+        r = chk.run_bin(binp, ["c16", "--tier", tier, "--seed", chk.SEED, "--flavour", flavour, "--evidence", part,
+                               "--replay-dir", os.path.join(chk.VERIF, "replays"), "--known", chk.KNOWN, "--scale", chk.SCALE])
+        if r not in (0, 1):
+            chk.die(f"C16: fipsim c16 ({flavour}) exited {r}")
+        rc = max(rc, r)
     extra = {}
     if tier == "thorough":
         extra["miri"] = miri(chk)
         if extra["miri"].get("exit") == 1:
             rc = 1
-    chk.merge_parts("C16", tier, [part], t0, extra=extra)
+    chk.merge_parts("C16", tier, parts, t0, extra=extra)
     return rc
 
 
